@@ -72,6 +72,7 @@ pub enum KRes {
     Scan(Result<Option<KeyEvent>, Error>),
     Key(Option<DecodedKey>),
     Unit,
+    Panic,
 }
 impl KRes {
     pub fn show(&self) -> String {
@@ -79,6 +80,7 @@ impl KRes {
             KRes::Scan(r) => res_str(r),
             KRes::Key(d) => odk_str(d),
             KRes::Unit => "()".into(),
+            KRes::Panic => "PANIC".into(),
         }
     }
 }
@@ -116,60 +118,67 @@ impl<D: Dec> Twin<D> {
     /// apply without checking (used to park stages; the same ops are checked elsewhere)
     pub fn apply_quiet(&mut self, op: &KOp) -> (KRes, KRes, [bool; 3]) {
         let mut fed = [false; 3];
-        let got = match op {
-            KOp::Bit(b) => KRes::Scan(self.kb.add_bit(*b)),
-            KOp::Word(w) => KRes::Scan(self.kb.add_word(*w)),
-            KOp::Byte(b) => KRes::Scan(self.kb.add_byte(*b)),
-            KOp::Ev(k, s) => KRes::Key(self.kb.process_keyevent(KeyEvent::new(*k, *s))),
+        // each side runs in its own guarded section: a panic is an outcome like any other, and the
+        // Keyboard ≡ stages comparison holds if both sides panic alike (reporting the panic is C08's job)
+        let kb = &mut self.kb;
+        let got = guarded(|| match op {
+            KOp::Bit(b) => KRes::Scan(kb.add_bit(*b)),
+            KOp::Word(w) => KRes::Scan(kb.add_word(*w)),
+            KOp::Byte(b) => KRes::Scan(kb.add_byte(*b)),
+            KOp::Ev(k, s) => KRes::Key(kb.process_keyevent(KeyEvent::new(*k, *s))),
             KOp::Clear => {
-                self.kb.clear();
+                kb.clear();
                 KRes::Unit
             }
             KOp::Mode(h) => {
-                self.kb.set_ctrl_handling(*h);
+                kb.set_ctrl_handling(*h);
                 KRes::Unit
             }
-        };
+        })
+        .unwrap_or(KRes::Panic);
         // the same thing with three stages used separately, wired as the statement says
-        let want = match op {
+        let (ps2, sc, evd) = (&mut self.ps2, &mut self.sc, &mut self.evd);
+        let fedr = &mut fed;
+        let want = guarded(|| match op {
             KOp::Bit(b) => {
-                fed[0] = true;
-                KRes::Scan(match self.ps2.add_bit(*b) {
+                fedr[0] = true;
+                KRes::Scan(match ps2.add_bit(*b) {
                     Err(e) => Err(e),
                     Ok(None) => Ok(None),
                     Ok(Some(byte)) => {
-                        fed[1] = true;
-                        self.sc.advance_state(byte)
+                        fedr[1] = true;
+                        sc.advance_state(byte)
                     }
                 })
             }
             // whole-word decoding goes through the frame check only; it does not touch the bit register
-            KOp::Word(w) => KRes::Scan(match self.ps2.add_word(*w) {
+            KOp::Word(w) => KRes::Scan(match ps2.add_word(*w) {
                 Err(e) => Err(e),
                 Ok(byte) => {
-                    fed[1] = true;
-                    self.sc.advance_state(byte)
+                    fedr[1] = true;
+                    sc.advance_state(byte)
                 }
             }),
             KOp::Byte(b) => {
-                fed[1] = true;
-                KRes::Scan(self.sc.advance_state(*b))
+                fedr[1] = true;
+                KRes::Scan(sc.advance_state(*b))
             }
             KOp::Ev(k, s) => {
-                fed[2] = true;
-                KRes::Key(self.evd.process_keyevent(KeyEvent::new(*k, *s)))
+                fedr[2] = true;
+                KRes::Key(evd.process_keyevent(KeyEvent::new(*k, *s)))
             }
             KOp::Clear => {
-                fed[0] = true;
-                self.ps2.clear();
+                fedr[0] = true;
+                ps2.clear();
                 KRes::Unit
             }
             KOp::Mode(h) => {
-                fed[2] = true;
-                self.evd.set_ctrl_handling(*h);
+                fedr[2] = true;
+                evd.set_ctrl_handling(*h);
                 KRes::Unit
             }
-        };
+        })
+        .unwrap_or(KRes::Panic);
         (got, want, fed)
     }
 
@@ -188,6 +197,9 @@ impl<D: Dec> Twin<D> {
         }
         if e0 != e1 {
             changed[op.kind()][2] += 1;
+        }
+        if got == KRes::Panic && want == KRes::Panic {
+            return Some(Mismatch { what: "both-panicked", detail: "both the Keyboard and the separate stages panicked on this operation".into() });
         }
         if got != want {
             return Some(Mismatch {
@@ -235,6 +247,7 @@ fn op_class(op: &KOp) -> String {
 
 #[derive(Default)]
 struct Out {
+    both_panicked: u64,
     ops: u64,
     per_kind: [u64; 6],
     changed: [[u64; 3]; 6],
@@ -252,6 +265,9 @@ fn run_case<D: Dec>(li: usize, setup: &[KOp], checked: &[KOp], out: &mut Out) {
         let mut changed = [[0u64; 3]; 6];
         for op in setup {
             let (g, w, _) = tw.apply_quiet(op);
+            if g == KRes::Panic && w == KRes::Panic {
+                return (Some((usize::MAX, *op, Mismatch { what: "both-panicked", detail: String::new() })), changed);
+            }
             if g != w {
                 return (Some((usize::MAX, *op, Mismatch { what: "result", detail: format!("(while parking stages) Keyboard returned {} vs {}", g.show(), w.show()) })), changed);
             }
@@ -275,6 +291,9 @@ fn run_case<D: Dec>(li: usize, setup: &[KOp], checked: &[KOp], out: &mut Out) {
                     out.changed[k][s] += ch[k][s];
                 }
             }
+        }
+        Ok((Some((_i, _op, m)), _)) if m.what == "both-panicked" => {
+            out.both_panicked += 1;
         }
         Ok((Some((_i, op, m)), _)) => {
             if out.violations.len() < 3000 {
@@ -303,6 +322,7 @@ fn run_case<D: Dec>(li: usize, setup: &[KOp], checked: &[KOp], out: &mut Out) {
 }
 
 fn merge(a: &mut Out, b: Out) {
+    a.both_panicked += b.both_panicked;
     a.ops += b.ops;
     a.cases += b.cases;
     a.panics += b.panics;
@@ -514,6 +534,7 @@ pub fn run<D: Dec>(rep: &mut Report) {
 
     rep.evaluations += out.ops;
     rep.panics += out.panics;
+    rep.count(&format!("{}_cases_ended_because_both_sides_panicked_alike(C08_matter)", set_name(set)), out.both_panicked);
     for k in 0..6 {
         rep.count(&format!("{}_checked_{}", set_name(set), KOP_NAMES[k]), out.per_kind[k]);
         rep.require(&format!("{} {} operations checked", set_name(set), KOP_NAMES[k]), out.per_kind[k], 100);
